@@ -224,7 +224,7 @@ def check(ctx: Ctx) -> list[RuleResult]:
     # take its lifetime from the payload's countdown - in particular before the "table lifetime is False -> cannot expire" case,
     # because Packet stores the zero table lifetime of an RP/W 1F09 as False.
     r6 = RuleResult("R6", "payload-defined lifetimes take precedence", "decision table of Message._expired's update chain: every non-RQ 1F09 uses the payload countdown", min_instances=3)
-    import copy as _copy
+    from ..predeval import _clone
 
     chain = [st for st in ex.node.body if isinstance(st, ast.If) and any(isinstance(n, ast.Assign) and norm(n.targets[0]) == "self._fraction_expired" for n in ast.walk(st)) and any("remaining_seconds" in norm(n) for n in ast.walk(st))]
     if len(chain) != 1:
@@ -236,7 +236,7 @@ def check(ctx: Ctx) -> list[RuleResult]:
                 return ast.copy_location(ast.Return(value=ast.Constant(value=norm(node.value))), node)
             return node
 
-    synth_body = [_ToReturn().visit(_copy.deepcopy(chain[0]))]
+    synth_body = [_ToReturn().visit(_clone(chain[0], {}))]
     synth = ast.FunctionDef(name="_update", args=ast.arguments(posonlyargs=[], args=[ast.arg(arg="self")], kwonlyargs=[], kw_defaults=[], defaults=[]), body=synth_body, decorator_list=[], type_params=[])
     ast.fix_missing_locations(synth)
     from ..loader import FuncInfo as _FI
